@@ -659,9 +659,8 @@ class Walker:
                     out.append((s, ast.IfExp(test=vs[0], body=vs[1], orelse=vs[2])))
             return out
         out = []
-        for s, tv in self.ev(e.test, st, exits):
-            for outcome, s2 in self.branch(e.test, tv, s):
-                out.extend(self.ev(e.body if outcome else e.orelse, s2, exits))
+        for outcome, s2 in self.cond(e.test, st, exits):
+            out.extend(self.ev(e.body if outcome else e.orelse, s2, exits))
         return out
 
     def ev_Lambda(self, e, st, exits):
@@ -1072,6 +1071,31 @@ class Walker:
             return True
         return False
 
+    def cond(self, e, st, exits):
+        """Evaluate e in test position: list of (truth, st). and/or/not are decomposed with
+        short-circuit, so every recorded `test` op is an atomic condition."""
+        if isinstance(e, ast.BoolOp):
+            is_and = isinstance(e.op, ast.And)
+            results = []
+            cur = [st]
+            for operand in e.values:
+                nxt = []
+                for s in cur:
+                    for o, s2 in self.cond(operand, s, exits):
+                        if o == is_and:
+                            nxt.append(s2)          # keep evaluating
+                        else:
+                            results.append((o, s2))  # short-circuit
+                cur = nxt
+            results.extend((is_and, s) for s in cur)
+            return results
+        if isinstance(e, ast.UnaryOp) and isinstance(e.op, ast.Not):
+            return [(not o, s) for o, s in self.cond(e.operand, st, exits)]
+        out = []
+        for s, tv in self.ev(e, st, exits):
+            out.extend(self.branch(e, tv, s))
+        return out
+
     def invalidate_field_facts(self, st):
         if not st.facts:
             return st
@@ -1298,24 +1322,23 @@ class Walker:
     def ex_Assert(self, stmt, st):
         exits = []
         normal = []
-        for s, v in self.ev(stmt.test, st, exits):
-            if self.model.assert_may_fail:
-                for outcome, s2 in self.branch(stmt.test, v, s):
-                    if outcome:
-                        normal.append(s2)
-                    else:
-                        exits.append((('raise', 'AssertionError'), s2))
-            else:
+        if self.model.assert_may_fail:
+            for outcome, s2 in self.cond(stmt.test, st, exits):
+                if outcome:
+                    normal.append(s2)
+                else:
+                    exits.append((('raise', 'AssertionError'), s2))
+        else:
+            for s, v in self.ev(stmt.test, st, exits):
                 normal.append(self.record_fact(v, True, s))
         return self._wrap(normal, exits)
 
     def ex_If(self, stmt, st):
         exits = []
         out = []
-        for s, tv in self.ev(stmt.test, st, exits):
-            for outcome, s2 in self.branch(stmt.test, tv, s):
-                out.extend(self.run_body(stmt.body if outcome else stmt.orelse, s2)
-                           if (stmt.body if outcome else stmt.orelse) else [(('next',), s2)])
+        for outcome, s2 in self.cond(stmt.test, st, exits):
+            out.extend(self.run_body(stmt.body if outcome else stmt.orelse, s2)
+                       if (stmt.body if outcome else stmt.orelse) else [(('next',), s2)])
         return out + exits
 
     def ex_While(self, stmt, st):
@@ -1327,8 +1350,8 @@ class Walker:
             nxt = []
             for s in cur:
                 exits = []
-                for s1, tv in self.ev(stmt.test, s, exits):
-                    for outcome, s2 in ([(True, s1)] if always else self.branch(stmt.test, tv, s1)):
+                for outcome, s2 in ([(True, s)] if always else self.cond(stmt.test, s, exits)):
+                    if True:
                         if not outcome:
                             if stmt.orelse:
                                 results.extend(self.run_body(stmt.orelse, s2))
